@@ -259,7 +259,44 @@ type anyResolver interface {
 	protoregistry.ExtensionTypeResolver
 }
 
-func resolverFor(proto.Message) anyResolver { return protoregistry.GlobalTypes }
+// ExtraTypes lets the harness's codecs resolve messages inside google.protobuf.Any whose
+// types exist only as dynamic descriptors (set once by package world before any traffic).
+var ExtraTypes protoregistry.MessageTypeResolver
+
+type extraFirst struct{}
+
+func (extraFirst) FindMessageByName(n protoreflect.FullName) (protoreflect.MessageType, error) {
+	if ExtraTypes != nil {
+		if mt, err := ExtraTypes.FindMessageByName(n); err == nil {
+			return mt, nil
+		}
+	}
+	return protoregistry.GlobalTypes.FindMessageByName(n)
+}
+func (extraFirst) FindMessageByURL(u string) (protoreflect.MessageType, error) {
+	if ExtraTypes != nil {
+		if mt, err := ExtraTypes.FindMessageByURL(u); err == nil {
+			return mt, nil
+		}
+	}
+	return protoregistry.GlobalTypes.FindMessageByURL(u)
+}
+func (extraFirst) FindExtensionByName(n protoreflect.FullName) (protoreflect.ExtensionType, error) {
+	return protoregistry.GlobalTypes.FindExtensionByName(n)
+}
+func (extraFirst) FindExtensionByNumber(m protoreflect.FullName, f protoreflect.FieldNumber) (protoreflect.ExtensionType, error) {
+	return protoregistry.GlobalTypes.FindExtensionByNumber(m, f)
+}
+
+func resolverFor(proto.Message) anyResolver { return extraFirst{} }
+
+// Resolver is the type resolver of the harness's own codecs (global types plus ExtraTypes).
+func Resolver() interface {
+	protoregistry.MessageTypeResolver
+	protoregistry.ExtensionTypeResolver
+} {
+	return extraFirst{}
+}
 
 // ---------------------------------------------------------------------------------
 // Envelopes
